@@ -23,6 +23,9 @@ type c06Req struct {
 	Query string
 	Op    string
 	Vars  []map[string]interface{} // alternative variable assignments (index 0 used by "get")
+	// Faults makes resolvers misbehave in ways that must not leak between
+	// executions (a resolver scribbling over the argument map it was handed)
+	Faults map[string]string
 }
 
 func v(kv ...interface{}) map[string]interface{} {
@@ -37,93 +40,101 @@ var c06Pad = strings.Repeat(" ", 60)
 
 var c06Reqs = []c06Req{
 	// F1 literal variants of one shape
-	{"lit-int-1", `{ echo(i:1) }`, "", nil},
-	{"lit-int-2", `{ echo(i:2) }`, "", nil},
-	{"lit-str-a", `{ echo(s:"a") }`, "", nil},
-	{"lit-str-b", `{ echo(s:"b") }`, "", nil},
-	{"lit-enum-alpha", `{ echo(e:ALPHA) }`, "", nil},
-	{"lit-enum-beta", `{ echo(e:BETA) }`, "", nil},
-	{"lit-obj-1", `{ echo(f:{min:1, kind:GAMMA}) }`, "", nil},
-	{"lit-obj-2", `{ echo(f:{min:2, tags:["x"]}) }`, "", nil},
-	{"lit-list-1", `{ echo(l:[1,2]) }`, "", nil},
-	{"lit-list-2", `{ echo(l:[3]) }`, "", nil},
-	{"lit-stamp", `{ echo(st:"s1") }`, "", nil},
-	{"lit-float", `{ echo(fl:1.5) }`, "", nil},
-	{"lit-float-int", `{ echo(fl:2) }`, "", nil},
-	{"lit-id-int", `{ echo(id:4) }`, "", nil},
-	{"lit-id-str", `{ echo(id:"4") }`, "", nil},
-	{"lit-bool", `{ echo(b:true) }`, "", nil},
-	{"lit-two-args", `{ echo(i:1, s:"a") }`, "", nil},
-	{"lit-two-args-swapped", `{ echo(s:"a", i:1) }`, "", nil},
-	{"lit-default-only", `{ echo }`, "", nil},
+	{"lit-int-1", `{ echo(i:1) }`, "", nil, nil},
+	{"lit-int-2", `{ echo(i:2) }`, "", nil, nil},
+	{"lit-str-a", `{ echo(s:"a") }`, "", nil, nil},
+	{"lit-str-b", `{ echo(s:"b") }`, "", nil, nil},
+	{"lit-enum-alpha", `{ echo(e:ALPHA) }`, "", nil, nil},
+	{"lit-enum-beta", `{ echo(e:BETA) }`, "", nil, nil},
+	{"lit-obj-1", `{ echo(f:{min:1, kind:GAMMA}) }`, "", nil, nil},
+	{"lit-obj-2", `{ echo(f:{min:2, tags:["x"]}) }`, "", nil, nil},
+	{"lit-list-1", `{ echo(l:[1,2]) }`, "", nil, nil},
+	{"lit-list-2", `{ echo(l:[3]) }`, "", nil, nil},
+	{"lit-stamp", `{ echo(st:"s1") }`, "", nil, nil},
+	{"lit-float", `{ echo(fl:1.5) }`, "", nil, nil},
+	{"lit-float-int", `{ echo(fl:2) }`, "", nil, nil},
+	{"lit-id-int", `{ echo(id:4) }`, "", nil, nil},
+	{"lit-id-str", `{ echo(id:"4") }`, "", nil, nil},
+	{"lit-bool", `{ echo(b:true) }`, "", nil, nil},
+	{"lit-two-args", `{ echo(i:1, s:"a") }`, "", nil, nil},
+	{"lit-two-args-swapped", `{ echo(s:"a", i:1) }`, "", nil, nil},
+	{"lit-default-only", `{ echo }`, "", nil, nil},
 	// F2 directives
-	{"dir-skip-true", `{ x1 @skip(if:true) x2 }`, "", nil},
-	{"dir-none", `{ x1 x2 }`, "", nil},
-	{"dir-include-false", `{ x1 @include(if:false) x2 }`, "", nil},
-	{"dir-skip-false", `{ x1 @skip(if:false) x2 }`, "", nil},
-	{"dir-inline-skip", `{ ... @skip(if:true) { x1 } x2 }`, "", nil},
-	{"dir-inline-none", `{ ... { x1 } x2 }`, "", nil},
-	{"dir-spread-skip", `{ ...F @skip(if:true) x2 } fragment F on Query { x1 }`, "", nil},
-	{"dir-spread-none", `{ ...F x2 } fragment F on Query { x1 }`, "", nil},
-	{"dir-var", `query($s:Boolean!){ x1 @skip(if:$s) x2 }`, "", []map[string]interface{}{v("s", true), v("s", false)}},
-	{"dir-arg-lit", `{ x1 echo(i:3) @include(if:true) }`, "", nil},
+	{"dir-skip-true", `{ x1 @skip(if:true) x2 }`, "", nil, nil},
+	{"dir-none", `{ x1 x2 }`, "", nil, nil},
+	{"dir-include-false", `{ x1 @include(if:false) x2 }`, "", nil, nil},
+	{"dir-skip-false", `{ x1 @skip(if:false) x2 }`, "", nil, nil},
+	{"dir-inline-skip", `{ ... @skip(if:true) { x1 } x2 }`, "", nil, nil},
+	{"dir-inline-none", `{ ... { x1 } x2 }`, "", nil, nil},
+	{"dir-spread-skip", `{ ...F @skip(if:true) x2 } fragment F on Query { x1 }`, "", nil, nil},
+	{"dir-spread-none", `{ ...F x2 } fragment F on Query { x1 }`, "", nil, nil},
+	{"dir-var", `query($s:Boolean!){ x1 @skip(if:$s) x2 }`, "", []map[string]interface{}{v("s", true), v("s", false)}, nil},
+	{"dir-arg-lit", `{ x1 echo(i:3) @include(if:true) }`, "", nil, nil},
 	// F3 variable defaults
-	{"def-1", `query($x:Int=1){ echo(i:$x) }`, "", []map[string]interface{}{nil, v("x", 9)}},
-	{"def-2", `query($x:Int=2){ echo(i:$x) }`, "", []map[string]interface{}{nil, v("x", 9)}},
-	{"def-none", `query($x:Int){ echo(i:$x) }`, "", []map[string]interface{}{nil, v("x", 9)}},
-	{"def-enum", `query($e:Kind=BETA){ echo(e:$e) }`, "", []map[string]interface{}{nil, v("e", "GAMMA")}},
-	{"def-enum2", `query($e:Kind=GAMMA){ echo(e:$e) }`, "", []map[string]interface{}{nil, v("e", "ALPHA")}},
+	{"def-1", `query($x:Int=1){ echo(i:$x) }`, "", []map[string]interface{}{nil, v("x", 9)}, nil},
+	{"def-2", `query($x:Int=2){ echo(i:$x) }`, "", []map[string]interface{}{nil, v("x", 9)}, nil},
+	{"def-none", `query($x:Int){ echo(i:$x) }`, "", []map[string]interface{}{nil, v("x", 9)}, nil},
+	{"def-enum", `query($e:Kind=BETA){ echo(e:$e) }`, "", []map[string]interface{}{nil, v("e", "GAMMA")}, nil},
+	{"def-enum2", `query($e:Kind=GAMMA){ echo(e:$e) }`, "", []map[string]interface{}{nil, v("e", "ALPHA")}, nil},
 	// F4 aliases
-	{"alias-a1", `{ a1: echo(i:1) }`, "", nil},
-	{"alias-a2", `{ a2: echo(i:1) }`, "", nil},
+	{"alias-a1", `{ a1: echo(i:1) }`, "", nil, nil},
+	{"alias-a2", `{ a2: echo(i:1) }`, "", nil, nil},
 	// F6 operation names
-	{"ops-A", `query A { x1 } query B { x2 }`, "A", nil},
-	{"ops-B", `query A { x1 } query B { x2 }`, "B", nil},
-	{"ops-none", `query A { x1 } query B { x2 }`, "", nil},
-	{"ops-unknown", `query A { x1 } query B { x2 }`, "C", nil},
-	{"ops-single-named", `query A { x1 }`, "", nil},
-	{"ops-single-wrongname", `query A { x1 }`, "B", nil},
+	{"ops-A", `query A { x1 } query B { x2 }`, "A", nil, nil},
+	{"ops-B", `query A { x1 } query B { x2 }`, "B", nil, nil},
+	{"ops-none", `query A { x1 } query B { x2 }`, "", nil, nil},
+	{"ops-unknown", `query A { x1 } query B { x2 }`, "C", nil, nil},
+	{"ops-single-named", `query A { x1 }`, "", nil, nil},
+	{"ops-single-wrongname", `query A { x1 }`, "B", nil, nil},
 	// F7 contents that mimic the key encoding
-	{"nul-in-string", "{ echo(s:\"A\\u0000{ x1 }\") }", "", nil},
-	{"nul-query", "\x00{ x1 }", "", nil},
-	{"nul-opname", "{ x1 }", "\x00", nil},
-	{"opname-as-prefix", `{ x1 }`, "{ x1 }", nil},
+	{"nul-in-string", "{ echo(s:\"A\\u0000{ x1 }\") }", "", nil, nil},
+	{"nul-query", "\x00{ x1 }", "", nil, nil},
+	{"nul-opname", "{ x1 }", "\x00", nil, nil},
+	{"opname-as-prefix", `{ x1 }`, "{ x1 }", nil, nil},
 	// F8 repeated fields
-	{"rep-equal-lit", `{ echo(i:1) echo(i:1) }`, "", nil},
-	{"rep-equal-lit-nested", `{ a { name(up:true) } a { name(up:true) } }`, "", nil},
-	{"rep-plain", `{ a { name } a { id } }`, "", nil},
+	{"rep-equal-lit", `{ echo(i:1) echo(i:1) }`, "", nil, nil},
+	{"rep-equal-lit-nested", `{ a { name(up:true) } a { name(up:true) } }`, "", nil, nil},
+	{"rep-plain", `{ a { name } a { id } }`, "", nil, nil},
 	// F9 over-size
-	{"big-1", `{ x1 ` + c06Pad + ` x2 }`, "", nil},
-	{"big-lit", `{ echo(i:5` + c06Pad + `) }`, "", nil},
+	{"big-1", `{ x1 ` + c06Pad + ` x2 }`, "", nil, nil},
+	{"big-lit", `{ echo(i:5` + c06Pad + `) }`, "", nil, nil},
 	// F10 invalid / unparsable
-	{"inv-unknown", `{ nope }`, "", nil},
-	{"inv-syntax", `{ x1 `, "", nil},
-	{"inv-lit-type", `{ echo(i:"str") }`, "", nil},
-	{"inv-arg", `{ echo(zz:1) }`, "", nil},
-	{"inv-enum", `{ echo(e:NOPE) }`, "", nil},
+	{"inv-unknown", `{ nope }`, "", nil, nil},
+	{"inv-syntax", `{ x1 `, "", nil, nil},
+	{"inv-lit-type", `{ echo(i:"str") }`, "", nil, nil},
+	{"inv-arg", `{ echo(zz:1) }`, "", nil, nil},
+	{"inv-enum", `{ echo(e:NOPE) }`, "", nil, nil},
 	// F11 required variables
-	{"var-required", `query($v:Int!){ echo(i:$v) }`, "", []map[string]interface{}{v("v", 3), nil, v("v", 4), v("v", "x")}},
-	{"var-obj", `query($f:Filter){ echo(f:$f, i:2) }`, "", []map[string]interface{}{v("f", map[string]interface{}{"min": 3}), nil, v("f", map[string]interface{}{"kind": "BETA"})}},
+	{"var-required", `query($v:Int!){ echo(i:$v) }`, "", []map[string]interface{}{v("v", 3), nil, v("v", 4), v("v", "x")}, nil},
+	{"var-obj", `query($f:Filter){ echo(f:$f, i:2) }`, "", []map[string]interface{}{v("f", map[string]interface{}{"min": 3}), nil, v("f", map[string]interface{}{"kind": "BETA"})}, nil},
 	// F12 abstract runtime types chosen by an extracted literal
-	{"abs-B", `{ node(as:"B") { id ... on B { bOnly nodes(n:1) { id } } ... on A { aOnly } } }`, "", nil},
-	{"abs-A", `{ node(as:"A") { id ... on B { bOnly nodes(n:1) { id } } ... on A { aOnly } } }`, "", nil},
-	{"abs-var", `query($t:String){ node(as:$t) { id ... on C { cOnly } ... on A { aOnly items(n:1) { n } } } }`, "", []map[string]interface{}{v("t", "C"), v("t", "A"), v("t", "B")}},
+	{"abs-B", `{ node(as:"B") { id ... on B { bOnly nodes(n:1) { id } } ... on A { aOnly } } }`, "", nil, nil},
+	{"abs-A", `{ node(as:"A") { id ... on B { bOnly nodes(n:1) { id } } ... on A { aOnly } } }`, "", nil, nil},
+	{"abs-var", `query($t:String){ node(as:$t) { id ... on C { cOnly } ... on A { aOnly items(n:1) { n } } } }`, "", []map[string]interface{}{v("t", "C"), v("t", "A"), v("t", "B")}, nil},
 	// F13 literals inside fragments
-	{"frag-lit-1", `{ ...F } fragment F on Query { echo(i:1) }`, "", nil},
-	{"frag-lit-2", `{ ...F } fragment F on Query { echo(i:2) }`, "", nil},
-	{"frag-inline-lit", `{ ... on Query { echo(i:7) } a { ... on A { items(n:1) { n } } } }`, "", nil},
+	{"frag-lit-1", `{ ...F } fragment F on Query { echo(i:1) }`, "", nil, nil},
+	{"frag-lit-2", `{ ...F } fragment F on Query { echo(i:2) }`, "", nil, nil},
+	{"frag-inline-lit", `{ ... on Query { echo(i:7) } a { ... on A { items(n:1) { n } } } }`, "", nil, nil},
 	// F14 mutations
-	{"mut-1", `mutation { s1(v:1) }`, "", nil},
-	{"mut-2", `mutation { s1(v:2) m1(v:3) { id } }`, "", nil},
+	{"mut-1", `mutation { s1(v:1) }`, "", nil, nil},
+	{"mut-2", `mutation { s1(v:2) m1(v:3) { id } }`, "", nil, nil},
 	// F15 literal containing a variable
-	{"mixed-lit-var", `query($t:String!){ echo(f:{min:1, tags:[$t]}, i:4) }`, "", []map[string]interface{}{v("t", "z"), v("t", "y")}},
+	{"mixed-lit-var", `query($t:String!){ echo(f:{min:1, tags:[$t]}, i:4) }`, "", []map[string]interface{}{v("t", "z"), v("t", "y")}, nil},
 	// F16 user variable named like a synthetic one
-	{"pcv-name", `query($__pcv0:Int){ echo(i:$__pcv0, s:"lit") }`, "", []map[string]interface{}{v("__pcv0", 5), nil}},
+	{"pcv-name", `query($__pcv0:Int){ echo(i:$__pcv0, s:"lit") }`, "", []map[string]interface{}{v("__pcv0", 5), nil}, nil},
 	// nested selections with literals at depth
-	{"deep-lit", `{ a { items(n:1) { n } u(as:"B") { ... on B { nodes(n:2) { id } } } } }`, "", nil},
-	{"deep-lit-2", `{ a { items(n:3) { n } u(as:"A") { ... on B { nodes(n:2) { id } } ... on A { aOnly } } } }`, "", nil},
-	{"introspect", `{ __type(name:"Kind") { name kind } }`, "", nil},
-	{"introspect-2", `{ __type(name:"Filter") { name kind } }`, "", nil},
+	{"deep-lit", `{ a { items(n:1) { n } u(as:"B") { ... on B { nodes(n:2) { id } } } } }`, "", nil, nil},
+	{"deep-lit-2", `{ a { items(n:3) { n } u(as:"A") { ... on B { nodes(n:2) { id } } ... on A { aOnly } } } }`, "", nil, nil},
+	// the same literal text in positions of different input types
+	{"same-text-int-float", `{ echo(i:1, fl:1) }`, "", nil, nil},
+	{"same-text-str-id", `{ echo(s:"4", id:"4") echo2(id:4, i:4) }`, "", nil, nil},
+	{"same-text-list", `{ echo(l:[2], i:2) nodes(n:2) { id } }`, "", nil, nil},
+	// resolvers that mutate the argument map they were handed
+	{"hostile-static-args", `{ echo(i:1, s:"a") a { name(up:true) } }`, "", nil, map[string]string{"R@echo": FHostile, "R@a.name": FHostile}},
+	{"hostile-var-args", `query($i:Int){ echo(i:$i, s:"k") }`, "", []map[string]interface{}{v("i", 1), v("i", 2)}, map[string]string{"R@echo": FHostile}},
+	{"hostile-default-args", `{ echo nodes { id } }`, "", nil, map[string]string{"R@echo": FHostile, "R@nodes": FHostile}},
+	{"introspect", `{ __type(name:"Kind") { name kind } }`, "", nil, nil},
+	{"introspect-2", `{ __type(name:"Filter") { name kind } }`, "", nil, nil},
 }
 
 type C06Op struct {
@@ -262,18 +273,18 @@ func mergeArgs(user, synth map[string]interface{}) map[string]interface{} {
 	return out
 }
 
-func c06Ctx(w *World, q string) context.Context {
+func c06Ctx(w *World, q string, faults map[string]string) context.Context {
 	root := "Query"
 	if strings.HasPrefix(strings.TrimSpace(q), "mutation") {
 		root = "Mutation"
 	}
-	rc := &ReqCtx{Task: "c1", W: w, RootTok: Tok{T: root}}
+	rc := &ReqCtx{Task: "c1", W: w, Faults: faults, RootTok: Tok{T: root}}
 	return WithReq(context.Background(), rc)
 }
 
 // c06Scratch is the from-scratch reference: parse, validate and execute.
 func c06Scratch(w *World, rq c06Req, vars map[string]interface{}) string {
-	return MarshalResult(graphql.Do(graphql.Params{Schema: w.Schema, RequestString: rq.Query, OperationName: rq.Op, VariableValues: vars, Context: c06Ctx(w, rq.Query)}))
+	return MarshalResult(graphql.Do(graphql.Params{Schema: w.Schema, RequestString: rq.Query, OperationName: rq.Op, VariableValues: vars, Context: c06Ctx(w, rq.Query, rq.Faults)}))
 }
 
 func (c06) Run(t TestingT, scn json.RawMessage, tape *Tape) *Outcome {
@@ -325,7 +336,7 @@ func (c06) Run(t TestingT, scn json.RawMessage, tape *Tape) *Outcome {
 			if len(pr.Errors) > 0 || pr.Plan == nil {
 				res = MarshalResult(&graphql.Result{Errors: pr.Errors})
 			} else {
-				res = MarshalResult(graphql.ExecutePlan(pr.Plan, graphql.ExecuteParams{Schema: w.Schema, Args: mergeArgs(vars, pr.SynthArgs), Context: c06Ctx(w, rq.Query)}))
+				res = MarshalResult(graphql.ExecutePlan(pr.Plan, graphql.ExecuteParams{Schema: w.Schema, Args: mergeArgs(vars, pr.SynthArgs), Context: c06Ctx(w, rq.Query, rq.Faults)}))
 				key := fmt.Sprintf("%p", pr.Plan)
 				if prev, ok := planOf[key]; ok && prev == pr.Plan {
 					o.Probe("plan-shared-between-gets")
@@ -349,7 +360,7 @@ func (c06) Run(t TestingT, scn json.RawMessage, tape *Tape) *Outcome {
 				vars = rq.Vars[op.Vars]
 			}
 			// the plan is bound to the schema it was planned against
-			res := MarshalResult(graphql.ExecutePlan(g.pr.Plan, graphql.ExecuteParams{Schema: g.w.Schema, Args: mergeArgs(vars, g.pr.SynthArgs), Context: c06Ctx(g.w, rq.Query)}))
+			res := MarshalResult(graphql.ExecutePlan(g.pr.Plan, graphql.ExecuteParams{Schema: g.w.Schema, Args: mergeArgs(vars, g.pr.SynthArgs), Context: c06Ctx(g.w, rq.Query, rq.Faults)}))
 			want := c06Scratch(g.w, rq, vars)
 			o.Probe("plan-reexecuted")
 			log = append(log, fmt.Sprintf("reexec %s", rq.Name))
